@@ -157,6 +157,11 @@ def check_C03(A: Analysis, tier):
                     rd.fail(site_func(ev), site_text(ev), "a pid reference is unbound outside delete_object / roll-back",
                             site_loc(A, ev))
     rules.append(rd)
+    from .rules_locks import release_held_rule
+    rg3 = Rule("C03", "C03.g", "the tagging claim on a pid (reference_locked_pids), inside which bind-or-reject is decided, is released "
+               "only by the call that holds it (shared with C07.f)", floor=2)
+    release_held_rule(A, rg3, ["store_object", "tag_object", "delete_object"], only_cls="reference_locked_pids")
+    rules.append(rg3)
     return rules
 
 
@@ -283,6 +288,15 @@ def check_C04(A: Analysis, tier):
                 rf.fail(Q("delete_object"), f"rename-for-deletion of {k}", f"when the last pid is deleted the {k} file is no "
                         "longer marked for deletion: an unreferenced object / empty list is left behind")
     rules.append(rf)
+    # the tagging roll-back unbinds a pid (and shrinks its cid list): run for a pid that was already bound it makes
+    # the object look unreferenced to the next delete_object of another pid
+    c3 = [r for r in c03_cached(A) if r.rid == "C03.e"][0]
+    rg4 = Rule("C04", "C04.g", "the tagging roll-back never unbinds a pid that was bound before the call (shared with C03.e): otherwise the "
+               "object is deleted with its last *listed* pid while that pid still refers to it", floor=c3.floor)
+    rg4.instances, rg4.nontrivial, rg4.obligations = list(c3.instances), set(c3.nontrivial), c3.obligations
+    for f in c3.findings:
+        rg4.fail(f.func, f.construct, f.message, f.loc, f.detail)
+    rules.append(rg4)
     return rules
 
 
@@ -412,6 +426,25 @@ def check_C05(A: Analysis, tier):
 
     # the line format of the cid list is what "appears exactly once in exactly that list" rests on
     c15 = [r for r in check_C15(A, tier) if r.rid == "C15.c"][0]
+    rg5 = Rule("C05", "C05.g", "a cid list comes into being by a rename only where it was tested absent: a list that may already exist "
+               "(and name other pids) is extended or rewritten from its own lines, never replaced by a fresh one-line file", floor=2)
+    for m in ALL_MODES:
+        for e in ("store_object", "tag_object"):
+            it = A.api(e, m)
+            for ev in it.events:
+                if ev.kind != "RENAME":
+                    continue
+                for c in primary(ev.classes[1]):
+                    if c.cls != "CIDREFS":
+                        continue
+                    rg5.ob()
+                    rg5.inst(f"{site_func(ev)}: `{site_text(ev)[:60]}` creates the cid list [{e}]")
+                    atoms = [a for a in probe_atoms(ev.facts, "isfile", "CIDREFS") if any(classify(t).key == c.key for t in a[2])]
+                    if not any(F.implied(ev.facts, a) is False for a in atoms):
+                        rg5.fail(site_func(ev), site_text(ev), "a fresh cid list is renamed into place on a path where the existing list was not tested "
+                                 "absent: the pids it already names are dropped from the list (their objects then look unreferenced)", site_loc(A, ev))
+    rules.append(rg5)
+
     rf = Rule("C05", "C05.f", "every writer of a cid list keeps one `pid + newline` per line (shared with C15.c): a list "
               "rewritten without its final newline makes the next appended pid merge with the last line", floor=c15.floor)
     rf.instances, rf.nontrivial, rf.obligations = list(c15.instances), set(c15.nontrivial), c15.obligations
@@ -469,7 +502,37 @@ def check_C09(A: Analysis, tier):
                     if not all(d.cls == "MARKER" for d in primary(ev.classes[1])):
                         rd.fail(site_func(ev), site_text(ev), f"{c.cls} is renamed to something that is not a `_delete` marker", site_loc(A, ev))
     rules += [ra, rb, rc, rd]
+
+    re9 = Rule("C09", "C09.e", "every handle the package writes through is a buffered writer: the package never looks at the count "
+               "write() returns, and only a buffered writer writes all of its argument or raises (an unbuffered raw file may write "
+               "part of it and return normally)", floor=4)
+    seen9 = set()
+    for it, ev in all_events(A, PUBLIC_API, ("th",)):
+        writer = (ev.prim == "open" and ev.kind in ("CREATE", "WRITE")) or ev.prim == "tempfile.NamedTemporaryFile" or ev.prim == "os.write"
+        if not writer:
+            continue
+        k9 = (ev.func.qual, ev.line)
+        if k9 in seen9:
+            continue
+        seen9.add(k9)
+        re9.ob()
+        re9.inst(f"{ev.func.qual}:{ev.line} {ev.prim} mode={ev.extra.get('mode')}")
+        if ev.prim == "os.write":
+            re9.fail(ev.func, ev.node, "os.write may write fewer bytes than given; its result is not what decides completion anywhere in the package",
+                     A.p.loc(ev.func, ev.node))
+            continue
+        b = ev.extra.get("buffering")
+        if b is not None and not all(is_const_int_buffered(t) for t in b):
+            re9.fail(ev.func, ev.node, f"the file is opened for writing with buffering={showv(b)}: an unbuffered (raw) writer can perform a short "
+                     "write without raising, and no write site checks the returned count - a truncated file would be published under the digest of the full content",
+                     A.p.loc(ev.func, ev.node))
+    rules.append(re9)
     return rules
+
+
+def is_const_int_buffered(t):
+    """a literal buffering argument that keeps a buffered writer: -1 (default), 1 (line) or a size > 1"""
+    return tag(t) == "const" and isinstance(t[1], int) and not isinstance(t[1], bool) and t[1] != 0
 
 
 # =======================================================================================
@@ -623,10 +686,13 @@ def check_C10(A: Analysis, tier):
             if ev.kind == "WRITE" and ev.prim == "open" and ev.extra.get("mode", "").startswith("a") and resource_hits(ev, {"CIDREFS"}):
                 re_.ob()
                 re_.inst(f"{ev.func.qual}:{ev.line} append-open of the cid list")
+                # some result of the membership helper is known to be false on every path to the append
                 ok = False
-                for f, pol in ev.facts:
-                    if f[0] == "truthy" and f[1] == V(C(True), C(False)) and pol is False:
-                        ok = True
+                for c in it.calls:
+                    if c["callee"] == Q("_is_string_in_refs_file") and c.get("ret"):
+                        if F.implied(ev.facts, it.truthy(c["ret"], c["state"])) is False:
+                            ok = True
+                            break
                 if not ok or ("call", Q("_is_string_in_refs_file")) not in ev.done:
                     re_.fail(site_func(ev), site_text(ev), "the pid is appended to the cid list without a preceding negative membership "
                              "test: re-tagging a half-tagged pid lists it twice", site_loc(A, ev))
@@ -635,6 +701,14 @@ def check_C10(A: Analysis, tier):
 
 
 _c05_cache = {}
+_c03_cache = {}
+
+
+def c03_cached(A):
+    if id(A) not in _c03_cache:
+        _c03_cache[id(A)] = check_C03(A, "quick")
+    return _c03_cache[id(A)]
+
 
 
 def c05_cached(A):
@@ -931,10 +1005,17 @@ def check_C15(A: Analysis, tier):
                             f"({sorted(repr(c) for c in cs)[:2]}): a full path handed to a look-up helper is joined onto the entity directory again "
                             "(prefix doubled) and the file is not found", site_loc(A, ev), {"entry": e, "configuration": "relative store_path"})
     ch = A.p.func(Q("_computehash"))
-    news = [c for c in ast.walk(ch.node) if isinstance(c, ast.Call) and norm(c.func) == "hashlib.new"]
+
+    def no_algorithm(atom):
+        return True if atom[0] == "isnone" and atom[1] == V(P("algorithm")) else None
+
+    it_h = A.run(Q("_computehash"), "th", tagk="algorithm-omitted", assume=no_algorithm)
+    news = [ev for ev in it_h.events if ev.kind == "HASHNEW"]
     ra.ob()
-    if not any(norm(c.args[0]) == "self.algorithm" for c in news if c.args):
-        ra.fail(ch, "hashlib.new", "_computehash does not default to the store algorithm (self.algorithm)", A.p.loc(ch, ch.node))
+    if not news or any(ev.paths[0] != V(("selfattr", "algorithm")) for ev in news):
+        got = sorted({show(t) for ev in news for t in ev.paths[0]})
+        ra.fail(ch, "hashlib.new", f"_computehash without an algorithm does not hash with the store algorithm (self.algorithm) but with {got or 'nothing'}",
+                A.p.loc(ch, ch.node))
     rules.append(ra)
 
     rb = Rule("C15", "C15.b", "_shard cuts token i as [i*width, (i+1)*width) for i in range(depth) and the remainder "
